@@ -180,6 +180,7 @@ pub fn gen_c11(tier: &str, seed: u64, out: &mut Vec<String>) {
             _ => Some(1 + rng.below(40)),
         };
         let stack = rng.chance(5, 6);
+        let stack_len = *rng.pick(&[0x200u64, 0x200, 0x208, 0x1008, 0x3f8, 0x101, 0x18]);
         let stop_after = rng.below(30);
         let mut hooks: Vec<(&str, &str, &str)> = vec![];
         if rng.chance(1, 3) {
@@ -196,7 +197,8 @@ pub fn gen_c11(tier: &str, seed: u64, out: &mut Vec<String>) {
             dec_all(&code, CODE, out);
             out.push(regs.clone());
             if stack {
-                out.push("stack 200".into());
+                // also lengths that are not multiples of 16 (the top-of-stack sentinel must still be where RSP + 8 starts)
+                out.push(format!("stack {:x}", stack_len));
             }
             // a hook may stop the run: the stopped step still executes its instruction exactly once and is counted
             for (h, hk) in hooks.iter().enumerate() {
@@ -674,7 +676,7 @@ pub fn gen_stack_programs(tier: &str, seed: u64, out: &mut Vec<String>) {
         emit_new(out, &code, CODE);
         out.push("nonative".into());
         out.push(setregs_at(&mut rng, CODE));
-        out.push("stack 400".into());
+        out.push(format!("stack {:x}", *rng.pick(&[0x400u64, 0x400, 0x408, 0x1008, 0x3f8, 0x28])));
         out.push("maxinstr 40".into());
         for _ in 0..24 {
             out.push("step".into());
